@@ -173,6 +173,17 @@ def write_raw(net, cw=1, cz=1, windv2=1.0, ixfr=True):
         out.append("%.17g,%.17g,%.17g" % (r, x, sb12))
         out.append("%.17g,%.17g,%.17g,0.0,0.0,0.0,0,0,1.1,0.9,1.1,0.9,33,0,0.0,0.0" % (w1, n1, ln['phi'] / DEG))
         out.append("%.17g,%.17g" % (w2, n2))
+    # three-winding transformers: net['xf3'] = [dict(buses=[I, J, K], z=[(r1, x1), (r2, x2), (r3, x3)] star-leg impedances in
+    # system-base p.u., windv=[w1, w2, w3] off-nominal turns ratios (CW=1), ang=[deg...], u)]; the record carries the
+    # measured pair impedances Z12 = Z1 + Z2, Z23 = Z2 + Z3, Z31 = Z3 + Z1 (CZ=1, system base)
+    for k, t3 in enumerate(net.get('xf3', [])):
+        (r1, x1), (r2, x2), (r3, x3) = t3['z']
+        i, j, kk = t3['buses']
+        out.append("%d,%d,%d,'%d',1,1,1,0.0,0.0,2,'W%-6d',%d,1,1.0" % (i, j, kk, k % 90 + 1, k, t3['u']))
+        out.append("%.17g,%.17g,%.17g,%.17g,%.17g,%.17g,%.17g,%.17g,%.17g,1.0,0.0"
+                   % (r1 + r2, x1 + x2, mva, r2 + r3, x2 + x3, mva, r3 + r1, x3 + x1, mva))
+        for w, a in zip(t3['windv'], t3['ang']):
+            out.append("%.17g,0.0,%.17g,0.0,0.0,0.0,0,0,1.1,0.9,1.1,0.9,33,0,0.0,0.0" % (w, a))
     out.append('0 / END OF TRANSFORMER DATA, BEGIN AREA DATA')
     for sec in ('AREA', 'TWO-TERMINAL DC', 'VSC DC', 'IMPEDANCE CORRECTION', 'MULTI-TERMINAL DC', 'MULTI-SECTION LINE', 'ZONE',
                 'INTER-AREA TRANSFER', 'OWNER', 'FACTS', 'SWITCHED SHUNT', 'GNE'):
